@@ -7,6 +7,7 @@ pub mod c03;
 pub mod c04;
 pub mod c05;
 pub mod c06;
+pub mod c07;
 pub mod c11;
 pub mod c12;
 pub mod c13;
@@ -25,6 +26,7 @@ pub fn all() -> Vec<PropDef> {
         c04::def(),
         c05::def(),
         c06::def(),
+        c07::def(),
         c11::def(),
         c12::def(),
         c13::def(),
